@@ -51,6 +51,7 @@ type Defects struct {
 	NullObjZero      bool // F28: null for required nullable object runs validators on zero struct
 	MaxZeroIgnored   bool // maxLength/maxItems/minimum-style zero sentinel (not representable: harness never states 0)
 	AddPropObjLax    bool // additionalProperties with object/array schema: values are not validated
+	NamedNullZero    bool // null at a defaulted property that refers to a validated named scalar: the zero value is validated
 	Uint8ArrayBase64 bool // --min-sized-ints: an array of integers within 0..255 is a []byte and accepts base64 strings
 	NamedFormat      bool // definition/root of a format string is a named struct type without methods
 	NamedArrayNoLim  bool // a definition/root of type array is a named slice type without any validator
@@ -756,6 +757,17 @@ func (c *evalCtx) evalObject(s *sg.Schema, o jsonx.Obj, path string, pos ctxPos)
 				if rp := p.Resolve(); c.d.EnumNullZero && rp != nil && rp.HasEnum {
 					if !enumHasZero(rp) {
 						c.fault("enum", path+"/"+kv.K)
+					}
+				} else if c.d.NamedNullZero && p.Ref != "" && rp != nil && !rp.HasEnum {
+					// defect model: the field is a non-pointer named type whose UnmarshalJSON is called with null and
+					// validates the zero value
+					if t, nullable, ok := rp.NonNullType(); ok && !nullable {
+						switch t {
+						case "integer", "number":
+							c.evalNumber(rp, jsonx.N(0), path+"/"+kv.K)
+						case "string":
+							c.evalString(rp, "", path+"/"+kv.K)
+						}
 					}
 				}
 				continue
